@@ -553,9 +553,9 @@ Example refuted_chainc_single :
   exists e, compile toy_mangle (HExpr [sym [99;104;97;105;110;99]; x_]) = COk e /\ validate e = false.
 Proof. eexists. split; vm_compute; reflexivity. Qed.
 
-(* {x #** x x x}: an even number of forms, but the None marker of the dict unpacking lands among the values *)
+(* {x #** x x}: an even number of collected entries, but the None marker of the dict unpacking lands among the values *)
 Example refuted_dict_unpack_misaligned :
-  exists e, compile toy_mangle (HDict [x_; HExpr [HSym s_unpack_mapping; x_]; x_; x_]) = COk e /\ validate e = false.
+  exists e, compile toy_mangle (HDict [x_; HExpr [HSym s_unpack_mapping; x_]; x_]) = COk e /\ validate e = false.
 Proof. eexists. split; vm_compute; reflexivity. Qed.
 
 (* [(unpack-mapping)]: indexing the argument-less form is an internal error outside a macro ... *)
